@@ -243,6 +243,20 @@ def run(chk, tier):
                 ok = True
         chk.expect(ok, "constructive-gate", "apply", f"{what}#{k}", "dominated by is_constructive() == true", "dominated" if ok else "reachable without the gate",
                    loc=f"{f['loc']['f']}:{line}")
+    # a new item is appended only as the *next* item (index == current count): any other index must fail without touching the sequence
+    ha = fx.method("dicom_object", IM, "apply")
+    pushes = []
+    for n, anc in H.walk_anc(ha["body"]):
+        if H.kind(n) == "mcall" and n[3] == "push" and H.path_of(n[4]) == "items":
+            conds = [a[2] for a in anc if H.is_node(a) and H.kind(a) == "if" and n in list(H.walk(a[3]))]
+            pushes.append((n, conds))
+    chk.expect(len(pushes) == 1, "constructive-gate", "apply", "item-append-site", "one `items.push(..)`", len(pushes), loc=C.fn_loc(ha))
+    for n, conds in pushes:
+        txt = " && ".join(H.show(c, 7) for c in conds)
+        eq = any(H.kind(y) == "bin" and y[2] == "Eq" and "items.len()" in H.show(y, 5) and "item" in H.show(y[4], 4) + H.show(y[3], 4) for c in conds for y in H.walk(c))
+        loose = any(H.kind(y) == "bin" and y[2] in ("Le", "Lt", "Ge", "Gt", "Ne") and "items.len()" in H.show(y, 5) for c in conds for y in H.walk(c))
+        chk.expect(eq and not loose and "is_constructive()" in txt, "constructive-gate", "apply", "append-only-next-item",
+                   "push guarded by `items.len() == item && action.is_constructive()`", txt[:200], loc=f"{ha['loc']['f']}:{n[1]}")
     chk.note("nested navigation in apply/entry_at_mut does not reset the recorded length of intermediate items: documented limitation of "
              "ExplicitLengthSqItemStrategy::NoChange (parser/src/dataset/write.rs), not claimed")
     chk.undecided.append("equivalence with a reference model over arbitrary operation sequences; write/read-back of the resulting objects")
